@@ -354,6 +354,118 @@ def matches_fixed_finding_shape(sess, drop):
     return any(re.search(r"(^|\n)\s*use ", sess["inputs"][i]) for i in drop if i < len(sess["inputs"]))
 
 
+# ------------------------------------------------------------ end-to-end: the interactive REPL binary under a pty
+PTY_SESSIONS = [
+    # (lines typed, text that must appear in the answer to the last line, what it shows)
+    (["use units::stoney; assert(false)", "use units::stoney", "stoney_length"], "= 1 stoney_length",
+     "run-time error after an import"),
+    (["use extra::algebra; 1 + true", "use extra::algebra", "quadratic_equation(1, 0, -1)"], "= [",
+     "type error after an import"),
+    (["use units::stoney; use nosuch::mod", "use units::stoney", "stoney_mass"], "= 1 stoney_mass",
+     "unknown module after an import"),
+]
+
+
+def pty_session(cli, home, lines, prompt_timeout=90.0):
+    """types the lines into `numbat` running under a pseudo terminal (script -qc) and returns the cleaned
+    transcript.  Each line is sent only after a fresh prompt has been printed (rustyline discards input typed
+    before it switches the terminal to raw mode, so fixed pauses lose lines on a loaded machine)."""
+    import shlex
+    import subprocess
+    import threading
+    import time
+    env = dict(common.ENV)
+    env.update({"HOME": home, "XDG_CONFIG_HOME": os.path.join(home, "cfg"), "XDG_DATA_HOME": os.path.join(home, "data"),
+                "TERM": "xterm"})
+    cmd = "%s --no-config --no-init --intro-banner off --color never" % shlex.quote(cli)
+    p = subprocess.Popen(["script", "-qc", cmd, "/dev/null"], stdin=subprocess.PIPE, stdout=subprocess.PIPE,
+                         stderr=subprocess.STDOUT, env=env, bufsize=0)
+    buf = bytearray()
+    lock = threading.Lock()
+
+    def reader():
+        while True:
+            chunk = p.stdout.read(4096)
+            if not chunk:
+                break
+            with lock:
+                buf.extend(chunk)
+    rt = threading.Thread(target=reader, daemon=True)
+    rt.start()
+
+    def prompts():
+        with lock:
+            return bytes(buf).count(b">>> ")
+
+    def feed():
+        try:
+            sent = 0
+            for l in lines + ['print("MARK-END")', "quit"]:
+                t0 = time.time()
+                while prompts() <= sent and time.time() - t0 < prompt_timeout:
+                    time.sleep(0.1)
+                time.sleep(0.3)
+                p.stdin.write((l + "\n").encode("utf-8"))
+                p.stdin.flush()
+                sent += 1
+            time.sleep(1.0)
+            p.stdin.close()
+        except (BrokenPipeError, OSError):
+            pass
+    th = threading.Thread(target=feed, daemon=True)
+    th.start()
+    killer = threading.Timer(prompt_timeout * 2 + 30 * (len(lines) + 2), p.kill)
+    killer.start()
+    p.wait()
+    killer.cancel()
+    rt.join(timeout=5)
+    with lock:
+        txt = bytes(buf).decode("utf-8", "replace")
+    txt = re.sub(r"\x1b\[[0-9;?]*[a-zA-Z]", "", txt).replace("\r", "")
+    return txt
+
+
+def pty_conclusive(txt, lines):
+    """every typed line was echoed after its own prompt (as a whole line) and the end marker was printed"""
+    echoed = re.findall(r"^>>> (.*)$", txt, re.M)
+    want = list(lines) + ['print("MARK-END")']
+    it = iter(echoed)
+    ok = all(any(e.strip() == w.strip() for e in it) for w in want)      # in order
+    return ok and txt.count("MARK-END") >= 2
+
+
+def pty_regression(chk):
+    """Returns (violations, conclusive sessions, attempted).  A session only counts when its transcript is
+    conclusive (every typed line echoed after a prompt and the end marker printed)."""
+    import concurrent.futures as cf
+    import shutil
+    if not shutil.which("script"):
+        chk.notes.append("pty regression skipped: no `script` binary")
+        return [], 0, 0
+    try:
+        cli = common.build_cli()
+    except common.Broken as e:
+        chk.notes.append("pty regression skipped: %s" % str(e)[:200])
+        return [], 0, 0
+    home = os.path.join(common.WORK, "c06-pty")
+    os.makedirs(home, exist_ok=True)
+    with cf.ThreadPoolExecutor(max_workers=len(PTY_SESSIONS)) as ex:
+        outs = list(ex.map(lambda sess: pty_session(cli, home, sess[0]), PTY_SESSIONS))
+    bad, conclusive = [], 0
+    for (lines, want, what), txt in zip(PTY_SESSIONS, outs):
+        if not pty_conclusive(txt, lines):
+            continue
+        conclusive += 1
+        parts = txt.rsplit(">>> " + lines[-1] + "\n", 1)
+        if len(parts) < 2:
+            conclusive -= 1
+            continue
+        tail = parts[1].split(">>> ", 1)[0]
+        if want not in tail or "nknown identifier" in tail:
+            bad.append({"typed": lines, "what": what, "answer_to_last_line": tail.strip()[:600]})
+    return bad, conclusive, len(PTY_SESSIONS)
+
+
 # ------------------------------------------------------------ the check
 def load_corpus():
     p = os.path.join(common.VERIF, "corpus", "c06.json")
@@ -427,7 +539,19 @@ def run(chk):
     chk.notes.append("timing: toy sessions on the implementation %.1fs, model by vm_compute %.1fs, oracle %.1fs"
                      % (t1 - t0, t2 - t1, t3 - t2))
 
+    pty_bad, pty_ok, pty_n = pty_regression(chk)
+    stats["pty_sessions_conclusive"] = pty_ok
+    stats["pty_sessions_attempted"] = pty_n
+
     found = 0
+    for b in pty_bad[:2]:
+        chk.violation({
+            "kind": "interactive REPL (real binary under a pty): a failing input changed the session",
+            "session": {"kind": "pty", "inputs": b["typed"], "mods": []}, "detail": "%s: the last line answers %r" % (
+                b["what"], b["answer_to_last_line"]),
+            "replay": "type the lines into `numbat --no-config --no-init` (interactive)",
+        })
+        found += 1
     reported = set()
     for si, desc, drop in bad:
         if si in reported:
@@ -510,6 +634,9 @@ def replay(path):
     sess = r["session"]
     if sess.get("table"):
         sess["table"] = [tuple(x) for x in sess["table"]]
+    if sess.get("kind") == "pty":
+        print(json.dumps(r, indent=1)[:3000])
+        return 0
     bad, stats, full = oracle(binary, [sess])
     print("full run:", full[0][:len(sess["inputs"])])
     for _, d, drop in bad:
